@@ -67,6 +67,24 @@ const c15MaxInlineNodes = 160
 // dependency order). Returns a description of what was done (for evidence).
 func c15Normalise(c *Ctx, shorts []string, anchors map[string]bool) {
 	counter := 0
+	// 0. the functions the rules look up by name are brought into the declaration form the rules know
+	//    (plain function <-> method on its first parameter); call sites follow
+	{
+		changedFiles := map[*packages.Package]map[*ast.File]bool{}
+		for _, sh := range shorts {
+			if pk := c.P.Pkg(sh); pk != nil {
+				if ch := c15CanonDecls(c, pk); len(ch) > 0 {
+					changedFiles[pk] = ch
+				}
+			}
+		}
+		if len(changedFiles) > 0 {
+			if err := c15Recheck(c, shorts, changedFiles); err != nil {
+				c.undecided("LOAD", "normalise", 0, "function/method canonicalisation produced code that does not type-check (%v)", err)
+				return
+			}
+		}
+	}
 	for round := 0; round < 6; round++ {
 		changedFiles := map[*packages.Package]map[*ast.File]bool{}
 		for _, sh := range shorts {
@@ -1747,4 +1765,183 @@ func (in *c15Inliner) refuse(code int) ([]ast.Stmt, bool) {
 		fmt.Printf("inline refused (reason %d) in %s\n", code, in.curFn.Name())
 	}
 	return nil, false
+}
+
+// ---------------------------------------------------------------------------
+// canonical declaration form of the anchor functions
+
+// c15CanonForm: unexported anchor name -> receiver type name ("" = plain function).
+var c15CanonForm = map[string]string{
+	"hitTest": "", "debugPrintWidget": "", "firstLineSegment": "",
+	"handleCommand": "App", "layout": "App",
+	"focusWidget": "focusHandler", "updatePath": "focusHandler", "childHasFocus": "focusHandler",
+	"update": "mouseHandler", "mouseExit": "mouseHandler",
+	"containsPoint": "SubSurface", "render": "Surface",
+	"drawSoftwrap": "*", "findContainerSize": "*", // "*": a method on the type of its first parameter, whatever it is
+}
+
+func c15CanonDecls(c *Ctx, pk *packages.Package) map[*ast.File]bool {
+	changed := map[*ast.File]bool{}
+	info := pk.TypesInfo
+	named := func(t types.Type) *types.Named {
+		if p, ok := t.(*types.Pointer); ok {
+			t = p.Elem()
+		}
+		n, _ := t.(*types.Named)
+		if n != nil && n.Obj().Pkg() == pk.Types {
+			return n
+		}
+		return nil
+	}
+	for _, f := range pk.Syntax {
+		for _, d := range f.Decls {
+			fd, ok := d.(*ast.FuncDecl)
+			if !ok || fd.Body == nil || fd.Name.IsExported() {
+				continue
+			}
+			want, isAnchor := c15CanonForm[fd.Name.Name]
+			if !isAnchor || fd.Type.TypeParams != nil {
+				continue
+			}
+			fn, _ := info.Defs[fd.Name].(*types.Func)
+			if fn == nil {
+				continue
+			}
+			switch {
+			case want == "" && fd.Recv != nil:
+				// method -> function
+				if pk.Types.Scope().Lookup(fd.Name.Name) != nil || len(fd.Recv.List) != 1 {
+					continue
+				}
+				refs, ok := c15CallRefs(pk, fn, true)
+				if !ok {
+					continue
+				}
+				recvField := fd.Recv.List[0]
+				if len(recvField.Names) == 0 {
+					recvField.Names = []*ast.Ident{ast.NewIdent("_")}
+				}
+				_, wantPtr := fn.Type().(*types.Signature).Recv().Type().(*types.Pointer)
+				for _, r := range refs {
+					sel := r.call.Fun.(*ast.SelectorExpr)
+					x := sel.X
+					_, havePtr := info.TypeOf(x).Underlying().(*types.Pointer)
+					switch {
+					case wantPtr && !havePtr:
+						x = &ast.UnaryExpr{Op: token.AND, X: x}
+					case !wantPtr && havePtr:
+						x = &ast.StarExpr{X: x}
+					}
+					r.call.Fun = ast.NewIdent(fd.Name.Name)
+					r.call.Args = append([]ast.Expr{x}, r.call.Args...)
+					changed[r.file] = true
+				}
+				fd.Type.Params.List = append([]*ast.Field{recvField}, fd.Type.Params.List...)
+				fd.Recv = nil
+				changed[f] = true
+				c.info("normalised: method %s rewritten as a plain function", fd.Name.Name)
+			case want != "" && fd.Recv == nil:
+				// function -> method on its first parameter
+				ps := fd.Type.Params.List
+				if len(ps) == 0 || len(ps[0].Names) == 0 {
+					continue
+				}
+				nt := named(info.TypeOf(ps[0].Type))
+				if nt == nil || (want != "*" && nt.Obj().Name() != want) {
+					continue
+				}
+				if _, isIface := nt.Underlying().(*types.Interface); isIface {
+					continue
+				}
+				// no method of that name yet
+				clash := false
+				for i := 0; i < nt.NumMethods(); i++ {
+					if nt.Method(i).Name() == fd.Name.Name {
+						clash = true
+					}
+				}
+				if st, ok := nt.Underlying().(*types.Struct); ok {
+					for i := 0; i < st.NumFields(); i++ {
+						if st.Field(i).Name() == fd.Name.Name {
+							clash = true
+						}
+					}
+				}
+				if clash {
+					continue
+				}
+				refs, ok := c15CallRefs(pk, fn, false)
+				if !ok {
+					continue
+				}
+				first := ps[0]
+				recv := &ast.Field{Names: []*ast.Ident{first.Names[0]}, Type: first.Type}
+				if len(first.Names) > 1 {
+					first.Names = first.Names[1:]
+				} else {
+					fd.Type.Params.List = ps[1:]
+				}
+				fd.Recv = &ast.FieldList{List: []*ast.Field{recv}}
+				for _, r := range refs {
+					if len(r.call.Args) == 0 {
+						continue
+					}
+					x := r.call.Args[0]
+					switch x.(type) {
+					case *ast.Ident, *ast.SelectorExpr, *ast.IndexExpr, *ast.CallExpr, *ast.ParenExpr:
+					default:
+						x = &ast.ParenExpr{X: x}
+					}
+					r.call.Fun = &ast.SelectorExpr{X: x, Sel: ast.NewIdent(fd.Name.Name)}
+					r.call.Args = r.call.Args[1:]
+					changed[r.file] = true
+				}
+				changed[f] = true
+				c.info("normalised: function %s rewritten as a method of %s", fd.Name.Name, nt.Obj().Name())
+			}
+		}
+	}
+	return changed
+}
+
+type c15CallRef struct {
+	call *ast.CallExpr
+	file *ast.File
+}
+
+// c15CallRefs lists the calls of fn in the package; ok=false if fn is referenced in any other way (method value, ...).
+func c15CallRefs(pk *packages.Package, fn *types.Func, method bool) ([]c15CallRef, bool) {
+	info := pk.TypesInfo
+	var refs []c15CallRef
+	inCall := map[*ast.Ident]bool{}
+	for _, f := range pk.Syntax {
+		ast.Inspect(f, func(n ast.Node) bool {
+			call, ok := n.(*ast.CallExpr)
+			if !ok {
+				return true
+			}
+			switch t := unparen(call.Fun).(type) {
+			case *ast.SelectorExpr:
+				if method && info.Uses[t.Sel] == fn {
+					if s := info.Selections[t]; s != nil && s.Kind() == types.MethodVal && len(s.Index()) == 1 {
+						refs = append(refs, c15CallRef{call, f})
+						inCall[t.Sel] = true
+						call.Fun = t
+					}
+				}
+			case *ast.Ident:
+				if !method && info.Uses[t] == fn {
+					refs = append(refs, c15CallRef{call, f})
+					inCall[t] = true
+				}
+			}
+			return true
+		})
+	}
+	for id, o := range info.Uses {
+		if o == fn && !inCall[id] {
+			return nil, false
+		}
+	}
+	return refs, true
 }
